@@ -176,7 +176,7 @@ func wakeAll(p pool) {
 
 var propGate = vkit.NewProp([]string{"C04"}, "c04poolgate", genGate, runGate)
 
-func TestVerifC04PoolGate(t *testing.T) { propGate.Check(t) }
+func TestVerifC04PoolGate(t *testing.T) { propGate.CrashFile = true; propGate.Check(t) }
 
 // ---------------------------------------------------------------- C05: pool state machine with real goroutines
 
@@ -313,4 +313,4 @@ func runPool(c PoolCase) *vkit.Outcome {
 
 var propPool = vkit.NewProp([]string{"C05", "C04"}, "c05pool", genPool, runPool)
 
-func TestVerifC05Pool(t *testing.T) { propPool.Check(t) }
+func TestVerifC05Pool(t *testing.T) { propPool.CrashFile = true; propPool.Check(t) }
